@@ -1,0 +1,136 @@
+//go:build verif
+
+// Contracts for the deductive verifier in /verif (govc). This file contains
+// comments only and is compiled only under the "verif" build tag.
+//
+// In this package every generic function is verified once per class of its
+// constraint's type set, with integers as bit-vectors of their exact width
+// (int, uint, uintptr are the 64-bit classes) and floats in the SMT
+// floating-point theory.
+
+package typ
+
+/*@
+// ---------------------------------------------------------------- C20
+
+func Min
+  property C20
+  requires forall k :: 0 <= k && k < len(v) ==> !isnan(v[k])
+  panics_iff len(v) == 0
+  ensures[member] exists k :: 0 <= k && k < len(v) && result == v[k]
+  ensures[least]  forall k :: 0 <= k && k < len(v) ==> result <= param(v)[k]
+  loop 0 invariant -1 <= rangeindex && rangeindex < len(param(v)) - 1
+  loop 0 invariant exists k :: 0 <= k && k <= rangeindex + 1 && min == param(v)[k]
+  loop 0 invariant forall k :: 0 <= k && k <= rangeindex + 1 ==> min <= param(v)[k]
+
+func Max
+  property C20
+  requires forall k :: 0 <= k && k < len(v) ==> !isnan(v[k])
+  panics_iff len(v) == 0
+  ensures[member]   exists k :: 0 <= k && k < len(v) && result == v[k]
+  ensures[greatest] forall k :: 0 <= k && k < len(v) ==> result >= param(v)[k]
+  loop 0 invariant -1 <= rangeindex && rangeindex < len(param(v)) - 1
+  loop 0 invariant exists k :: 0 <= k && k <= rangeindex + 1 && max == param(v)[k]
+  loop 0 invariant forall k :: 0 <= k && k <= rangeindex + 1 ==> max >= param(v)[k]
+
+func Clamp
+  property C20
+  requires !isnan(v) && !isnan(min) && !isnan(max) && min <= max
+  ensures[inside] min <= v && v <= max ==> result == v
+  ensures[below]  v < min ==> result == min
+  ensures[above]  v > max ==> result == max
+
+func Clamp01
+  property C20
+  requires !isnan(v)
+  ensures[inside] 0 <= v && v <= 1 ==> result == v
+  ensures[below]  v < 0 ==> result == 0
+  ensures[above]  v > 1 ==> result == 1
+
+// left folds: the defining equations of the spec functions are the property's
+// "left-to-right + and * with 0 and 1 for no arguments"
+spec sumTo(v []T, k int) elem(v)
+axiom sumTo_zero(v []T): sumTo(v, 0) == 0
+axiom sumTo_step(v []T, k int): k >= 0 ==> sumTo(v, k+1) == sumTo(v, k) + v[k]
+spec prodTo(v []T, k int) elem(v)
+axiom prodTo_zero(v []T): prodTo(v, 0) == 1
+axiom prodTo_step(v []T, k int): k >= 0 ==> prodTo(v, k+1) == prodTo(v, k) * v[k]
+
+func Sum
+  property C20
+  ensures[fold] result == sumTo(v, len(v))
+  loop 0 use sumTo_zero(v)
+  loop 0 use sumTo_step(v, rangeindex + 1)
+  loop 0 invariant -1 <= rangeindex && rangeindex < len(v) && sum == sumTo(v, rangeindex + 1)
+
+func Product
+  property C20
+  ensures[fold] result == prodTo(v, len(v))
+  loop 0 use prodTo_zero(v)
+  loop 0 use prodTo_step(v, rangeindex + 1)
+  loop 0 invariant -1 <= rangeindex && rangeindex < len(v) && product == prodTo(v, rangeindex + 1)
+
+func Abs
+  property C20
+  classes T: int8 int16 int32 int64 uint8 uint16 uint32 uint64
+  // except for the minimum of a signed type (whose magnitude is not representable): non-negative, same magnitude
+  ensures[magnitude] (v < 0 && -v < 0) || (result >= 0 && absw(result) == absw(v))
+
+func Abs#float
+  property C20
+  classes T: float32 float64
+  requires !isnan(v)
+  ensures[magnitude] result >= 0 && (result == v || result == -v)
+
+func Compare
+  property C20
+  requires !isnan(a) && !isnan(b)
+  ensures[eq] a == b ==> result == 0
+  ensures[lt] a < b ==> result == -1
+  ensures[gt] a > b ==> result == 1
+
+func Less
+  property C20
+  ensures[lt] result == (a < b)
+
+// number of decimal digits of a magnitude given as a 65-bit unsigned quantity
+spec d10(n uint64) int = ite(n < 10, 1, ite(n < 100, 2, ite(n < 1000, 3, ite(n < 10000, 4, ite(n < 100000, 5, ite(n < 1000000, 6, ite(n < 10000000, 7, ite(n < 100000000, 8, ite(n < 1000000000, 9, ite(n < 10000000000, 10, ite(n < 100000000000, 11, ite(n < 1000000000000, 12, ite(n < 10000000000000, 13, ite(n < 100000000000000, 14, ite(n < 1000000000000000, 15, ite(n < 10000000000000000, 16, ite(n < 100000000000000000, 17, ite(n < 1000000000000000000, 18, ite(n < 10000000000000000000, 19, 20)))))))))))))))))))
+
+func Digits10
+  property C20
+  ensures[digits] result == d10(absw(v))
+
+func DigitsSign10
+  property C20
+  ensures[digits] result == d10(absw(v)) + b2i(v < 0)
+
+func Zero
+  property C20
+  ensures result == zero(T)
+
+func ZeroOf
+  property C20
+  ensures result == zero(T)
+
+func Coal
+  property C20
+  ensures[first] forall k :: {values[k]} 0 <= k && k < len(values) && values[k] != zero(T) && (forall j :: {values[j]} 0 <= j && j < k ==> values[j] == zero(T)) ==> result == values[k]
+  ensures[none]  (forall k :: {values[k]} 0 <= k && k < len(values) ==> values[k] == zero(T)) ==> result == zero(T)
+  loop 0 invariant -1 <= rangeindex && rangeindex < len(values)
+  loop 0 invariant forall j :: {values[j]} 0 <= j && j <= rangeindex ==> values[j] == zero(T)
+
+func Tern
+  property C20
+  ensures cond ==> result == ifTrue
+  ensures !cond ==> result == ifFalse
+
+func Ref
+  property C20
+  ensures[cell]  *result == value
+  ensures[fresh] result != nil && fresh(result)
+
+func DerefZero
+  property C20
+  ensures[nil]    ptr == nil ==> result == zero(V)
+  ensures[nonnil] ptr != nil ==> result == *ptr
+@*/
